@@ -67,6 +67,11 @@ pub struct CaseRunner<'a> {
   pub ext_dirty: BTreeSet<u32>,
   /// Emit K1 hits as alarms (curated reproducer) instead of only counting them.
   pub known_as_alarm: bool,
+  /// Injected classes only: tasks whose latest execution read a resource and then saw another task write it while the
+  /// reader was still executing or in the same build (a read that precedes the write of its generator, DESIGN
+  /// section 12). What such a task computed is not a function of any single resource state, so neither its cached
+  /// output nor anything built on it can be compared with a from-scratch run until it has executed again.
+  pub order_tainted: BTreeSet<u32>,
   rng: Rng,
 }
 
@@ -77,7 +82,7 @@ impl<'a> CaseRunner<'a> {
     crate::cell::faults_reset();
     if opts.injected { crate::cell::FAULTS.with(|f| f.borrow_mut().step_bound = Some(60 * prog.n_tasks() as u64 + 400)); }
     let drv = Driver::new(prog.clone(), &case.init, log_trk());
-    CaseRunner { case, opts, rep, drv, prog, step_no: 0, seen_tm: BTreeSet::new(), any_abort: false, tainted: BTreeSet::new(), tainted_res: BTreeSet::new(), ext_dirty: BTreeSet::new(), known_as_alarm: false, rng: Rng::derive(opts.seed ^ 0x5151, opts.case_no) }
+    CaseRunner { case, opts, rep, drv, prog, step_no: 0, seen_tm: BTreeSet::new(), any_abort: false, tainted: BTreeSet::new(), tainted_res: BTreeSet::new(), ext_dirty: BTreeSet::new(), known_as_alarm: false, order_tainted: BTreeSet::new(), rng: Rng::derive(opts.seed ^ 0x5151, opts.case_no) }
   }
 
   fn raise(&mut self, fd: &Finding, rec: &SessionRec, what: &str) {
@@ -168,7 +173,9 @@ impl<'a> CaseRunner<'a> {
         if let Some(fd) = self.classify_abort(rec, msg, kind) { fs.push(fd); }
       }
     }
-    if self.opts.injected && rec.kind == SessKind::TopDown {
+    let order_tainted_reused = if self.opts.injected { self.update_order_taint(rec) } else { false };
+    if order_tainted_reused { self.rep.count("sessions_reusing_a_task_that_read_before_its_generator_wrote"); }
+    if self.opts.injected && rec.kind == SessKind::TopDown && !order_tainted_reused {
       // Second oracle for C05-C07: if the from-scratch interpreter hits a violation while evaluating root k, pie must
       // not return a value for root k. And when neither aborts, the values must agree.
       let p = self.prog.clone();
@@ -320,7 +327,39 @@ impl<'a> CaseRunner<'a> {
   /// same kind of violation, fine. Otherwise the abort must be explained by a stale edge (finding K3): the other task
   /// named in the message was not executed in this session and, evaluated from scratch in the current state, does
   /// not create the edge. Anything else is a violation.
+  /// Maintains `order_tainted` from what pie actually did in this session; returns whether a task that was tainted
+  /// before this session is still tainted (not re-executed) - then the session may have reused it.
+  fn update_order_taint(&mut self, rec: &SessionRec) -> bool {
+    let mut executed: BTreeSet<u32> = BTreeSet::new();
+    // reads made by executions of this session: (task, res)
+    let mut reads: Vec<(u32, u32)> = Vec::new();
+    let mut stack: Vec<u32> = Vec::new();
+    let mut newly: BTreeSet<u32> = BTreeSet::new();
+    for e in &rec.events {
+      match e {
+        Ev::ExecStart { task } => { executed.insert(*task); newly.remove(task); reads.retain(|(t, _)| t != task); stack.push(*task); }
+        Ev::ExecEnd { .. } => { stack.pop(); }
+        Ev::Abort { .. } => { stack.clear(); }
+        Ev::ReadRet { task, res, reader: Some(_), .. } => reads.push((*task, *res)),
+        Ev::WriterSet { res, .. } => {
+          let w = stack.last().copied();
+          for (t, r) in &reads { if r == res && Some(*t) != w { newly.insert(*t); } }
+        }
+        _ => {}
+      }
+    }
+    let carried = self.order_tainted.iter().any(|t| !executed.contains(t));
+    self.order_tainted.retain(|t| !executed.contains(t));
+    self.order_tainted.extend(newly);
+    carried
+  }
+
   fn classify_abort(&mut self, rec: &SessionRec, msg: &str, kind: &'static str) -> Option<Finding> {
+    if !self.order_tainted.is_empty() {
+      // (update_order_taint has not run yet for this session: any member may be reused by it)
+      let executed: BTreeSet<u32> = rec.events.iter().filter_map(|e| if let Ev::ExecStart { task } = e { Some(*task) } else { None }).collect();
+      if self.order_tainted.iter().any(|t| !executed.contains(t)) { self.rep.count("aborts_in_sessions_reusing_a_task_that_read_before_its_generator_wrote"); return None; }
+    }
     let p = self.prog.clone();
     let at = rec.events.len().saturating_sub(2);
     let known: Vec<u32> = self.drv.shadow.known.iter().copied().collect();
@@ -490,7 +529,9 @@ impl<'a> CaseRunner<'a> {
             }
             self.rep.count("partial_top_down_sessions_with_pending_changes");
           }
-          if self.opts.idempotence_probe {
+          // (a checker that is armed to fail makes its owner inconsistent by design: 'nothing changed' does not hold then)
+          let any_armed = crate::cell::FAULTS.with(|f| !f.borrow().armed_checks.is_empty());
+          if self.opts.idempotence_probe && !any_armed {
             let rec2 = self.drv.session(None, roots);
             let mut fs2 = self.analyze(&rec2, "repeated identical session", true);
             for (i, e) in rec2.events.iter().enumerate() {
